@@ -17,7 +17,7 @@ Proof.
   unfold tokens_agree, path_expression, jsr_tpl. cbn [pe_toks].
   induction (filter (fun t => negb (str_eqb t [])) (tokenize template)) as [|s l IH]; cbn; [constructor|].
   intros H. apply andb_true_iff in H as [Hs Hl]. constructor; [|now apply IH].
-  unfold tok_rel. change (v_tk (parse_tok false s)) with (parse_tk s) in *. destruct (conv (parse_tk s)) as [e|] eqn:Ec.
+  unfold tok_rel. change (v_tk (jsr_parse_tok s)) with (jsr_parse_tk s) in *. destruct (conv (jsr_parse_tk s)) as [e|] eqn:Ec.
   - apply etok_eqb_eq in Hs. now rewrite Hs.
   - discriminate Hs.
 Qed.
@@ -225,7 +225,7 @@ Proof.
   induction (filter (fun t => negb (str_eqb t [])) (tokenize template)) as [|s l IH]; cbn [forallb map]; [constructor|].
   intros H1 H2. apply andb_true_iff in H1 as [Hs Hl]. apply andb_true_iff in H2 as [Hn Hln].
   constructor; [|now apply IH]. unfold tok_rel2. split.
-  - change (v_tk (parse_tok false s)) with (parse_tk s) in *. destruct (conv (parse_tk s)) as [e|] eqn:Ec; [|discriminate Hs].
+  - change (v_tk (jsr_parse_tok s)) with (jsr_parse_tk s) in *. destruct (conv (jsr_parse_tk s)) as [e|] eqn:Ec; [|discriminate Hs].
     apply etok_eqb_eq in Hs. now rewrite Hs.
   - now apply opt_str_eqb_eq.
 Qed.
